@@ -382,6 +382,13 @@ def mon_values(ctx):
                 if pre["values"] != post["values"] or pre["dtype"] != post["dtype"]:
                     return ("values.refusal", "refused %s changed values/dtype: %s" %
                             (name, "; ".join(diff_snapshots(ctx.pre, ctx.post, only=[i]))))
+            elif name in ("v_append", "v_extend", "v_extend_prop", "v_insert", "v_setitem", "set_values",
+                          "v_remove", "v_remove_at") and pre["dtype"] is not None and \
+                    pre["dtype"] != post["dtype"]:
+                # only the dtype setter changes a dtype that is set: input that does not fit it is
+                # refused, whatever the Property held before
+                return ("values.refusal", "%s changed the dtype %r -> %r" %
+                        (name, pre["dtype"], post["dtype"]))
             elif name == "set_dtype":
                 # a string holding the bracketed text form of several n-tuples is legitimately
                 # expanded when the dtype becomes an n-tuple type: only a loss is judged there
@@ -585,6 +592,15 @@ def mon_card(ctx):
             if field in rec and card_pair(rec[field]) != pair:
                 return ("card.accepts-valid", "assignment of the valid cardinality %r stored %r" %
                         (pair, card_pair(rec[field])))
+    if ctx.name in ("set_card", "set_card2") and kind_of(ctx.args.get("x")) in ("sec", "prop") \
+            and not ctx.raised:
+        # "any other assignment raises ValueError": a pair with a member that is a number and no
+        # integer (1.0, 2.5) is no (min, max) pair of integers, whatever the object holds already
+        given = ctx.args.get("v") if ctx.name == "set_card" else (ctx.args.get("lo"), ctx.args.get("hi"))
+        if isinstance(given, (tuple, list)) and len(given) == 2 and any(
+                isinstance(m, float) and m != 0 for m in given):
+            return ("card.refusal-keeps", "assignment of %r (a member is no integer) was accepted" %
+                    (given,))
     if ctx.name in ("set_card", "set_card2") and kind_of(ctx.args.get("x")) in ("sec", "prop") \
             and not ctx.raised:
         # what an assignment stores is a function of the assigned value: not of the setting the
